@@ -180,7 +180,7 @@ impl<L: Language, N: Analysis<L>> EGraph<L, N> {
         }
         */
 
-        self.update_analysis(&sh, i);
+        let improved = self.update_analysis(&sh, i);
 
         if let PendingType::OnlyAnalysis = pending_ty {
             return;
@@ -229,6 +229,13 @@ impl<L: Language, N: Analysis<L>> EGraph<L, N> {
         let bij = bij.compose(&m);
         let t = (sh, bij);
         self.raw_add_to_class(i.id, t.clone(), src_id);
+        // An e-node that refers to its own class through an id that has been merged away is not among the usages
+        // `update_analysis` has queued; if it improved the class, it has to be analysed again like them.
+        let requeued = if improved && t.0.ids().contains(&i.id) {
+            Some(requeued.unwrap_or(PendingType::OnlyAnalysis))
+        } else {
+            requeued
+        };
         if let Some(pending_ty) = requeued {
             let v = self.pending.entry(t.0.clone()).or_insert(pending_ty);
             *v = v.merge(pending_ty);
@@ -237,7 +244,8 @@ impl<L: Language, N: Analysis<L>> EGraph<L, N> {
         self.determine_self_symmetries(src_id);
     }
 
-    fn update_analysis(&mut self, sh: &L, i: Id) {
+    // returns whether the datum of `i` has changed.
+    fn update_analysis(&mut self, sh: &L, i: Id) -> bool {
         let v = N::make(self, sh);
 
         let c = self.classes.get_mut(&i).unwrap();
@@ -249,6 +257,7 @@ impl<L: Language, N: Analysis<L>> EGraph<L, N> {
             self.modify_queue.push(i);
             self.touched_class(i, PendingType::OnlyAnalysis);
         }
+        new != old
     }
 
     fn handle_shrink_in_upwards_merge(&mut self, src_id: Id) {
